@@ -20,6 +20,7 @@ Print Assumptions C06_reader_core.
 
 Theorem C06_rows_of_letters_and_dashes_are_fixed_points : forall l, Forall rowchar l -> norm l = l.
 Proof. exact norm_rowchars. Qed.
+Print Assumptions C06_rows_of_letters_and_dashes_are_fixed_points.
 
 (* read_file_stdin inverts the writers' line output *)
 Theorem C06_lines_roundtrip : forall ls, Forall clean_line ls -> read_lines (unlines ls) = ls.
